@@ -32,7 +32,8 @@ def cls_case(draw):
     p = draw(est.params(row, N, cplx))
     lo = max(N, est.min_nfft(row, N, p))
     nfft = draw(gen.nfft_at_least(lo, hi_mult=2, allow_none=(lo == N)))
-    return {"row": row, "x": x, "params": p, "nfft": nfft, "s1": draw(gen.sampling), "s2": draw(gen.sampling)}
+    return {"row": row, "x": x, "params": p, "nfft": nfft, "s1": draw(gen.sampling), "s2": draw(gen.sampling),
+            "flag": draw(est.flag_forms)}    # how the boolean scale_by_freq is spelled (literal, numpy boolean, 0/1)
 
 
 @sub("C08.scale", strategy=cls_case(), quick=2400, thorough=50000, shards_quick=4,
@@ -45,11 +46,12 @@ def c08_scale(ctx, case):
     nfft = gen.resolve_nfft(case["nfft"], len(x))
     sig = {"row": row, "clause": "scale"}
     ctx.sig_on_exception = sig
-    a = est.build(row, x, p, NFFT=case["nfft"], sampling=fs, scale_by_freq=False)
-    b = est.build(row, x, p, NFFT=case["nfft"], sampling=fs, scale_by_freq=True)
+    form = case.get("flag", "py")
+    a = est.build(row, x, p, NFFT=case["nfft"], sampling=fs, scale_by_freq=est.flag(False, form))
+    b = est.build(row, x, p, NFFT=case["nfft"], sampling=fs, scale_by_freq=est.flag(True, form))
     pa, pb = np.real(est.psd_of(a)), np.real(est.psd_of(b))
     df = fs / float(nfft)
-    ctx.cls(row, "complex" if np.iscomplexobj(x) else "real", "NFFT=%s" % (case["nfft"] if not isinstance(case["nfft"], int) else "int"))
+    ctx.cls("flag=" + form, row, "complex" if np.iscomplexobj(x) else "real", "NFFT=%s" % (case["nfft"] if not isinstance(case["nfft"], int) else "int"))
     ctx.nontrivial(fs != 1.0 and nfft != len(x))
     ctx.check(abs(a.df - df) <= 1e-12 * df and abs(b.df - df) <= 1e-12 * df, "%s: df=%r / %r, expected %r" % (row, a.df, b.df, df), sig=sig)
     ctx.check(pa.shape == pb.shape, "%s: shape depends on scale_by_freq" % row, sig=sig)
@@ -114,7 +116,7 @@ def c08_setter(ctx, case):
         if step == "sampling":
             a.sampling = s2
         else:
-            a.scale_by_freq = True
+            a.scale_by_freq = est.flag(True, case.get("flag", "py"))
     b = est.build(row, x, p, NFFT=case["nfft"], sampling=s2 if "sampling" in mode else s1, scale_by_freq="scale" in mode)
     ctx.cls(row, "assign " + mode)
     ctx.nontrivial(s1 != s2)
@@ -236,3 +238,14 @@ def c08_narrow(ctx, case):
         i = int(np.argmax(np.abs(got - exp) / (rtol * exp)))
         ctx.fail("arma2psd at bin %d where |A(f)| = %.3g: got %.6g, (rho/T)|B|^2/|A|^2 = %.6g (ratio %.4g, allowed relative error %.2g)"
                  % (i, abs(Af[i]), got[i], exp[i], got[i] / exp[i], rtol[i]), sig={"clause": "narrow-band"})
+
+
+# ---- call-form invariance (documented parameter names) ----------------------------
+from vlib import kwcheck as _kw   # noqa: E402
+
+
+@sub("C08.keywords", strategy=_kw.kw_case(_kw.PROPS["C08"]), quick=200, thorough=4000,
+     doc="the same call with its trailing arguments given by their documented names (any split, any order) returns the same "
+         "result as the positional call, and every documented name is accepted: " + ", ".join(_kw.PROPS["C08"]))
+def c08_keywords(ctx, case):
+    _kw.body(ctx, case)
